@@ -535,9 +535,9 @@ LOG_HASHSEED_INDEPENDENT = True
 CROSS_HASHSEED_IS_VIOLATION = True
 TIERS = {
     "quick": {"runs": 1600, "gen": {"min_ops": 8, "max_ops": 30}, "soft_deadline_s": 200, "hard_timeout_s": 600,
-              "n_echo": 12, "n_echo_b": 60, "minimise_budget_s": 60},
+              "n_echo": 12, "n_echo_b": 50, "echo_b_lanes": 6, "minimise_budget_s": 60},
     "thorough": {"runs": 40000, "gen": {"min_ops": 8, "max_ops": 40}, "soft_deadline_s": 1700, "hard_timeout_s": 2700,
-                 "n_echo": 32, "n_echo_b": 600, "minimise_budget_s": 120},
+                 "n_echo": 32, "n_echo_b": 500, "echo_b_lanes": 8, "minimise_budget_s": 120},
 }
 RULE = ("one evaluation = one seeded scenario: a pool of caller-owned frames (1-3 tables x {Pandas with a seeded index "
         "labelling, Polars eager or lazy}, also captured by reference via data()/descr()), 2-6 pipelines of up to 6 steps "
